@@ -53,3 +53,11 @@ ENTRIES = [
     N('cancelled-waiter-renotify-base-exception', "                    except asyncio.CancelledError:\n", "                    except BaseException:\n"),
     N('proxy-release-before-close', "            connection.close()\n            super().no_wait_release(connection)\n            raise\n", "            super().no_wait_release(connection)\n            connection.close()\n            raise\n", 'wpull/proxy/client.py'),
 ]
+
+ENTRIES += [
+    B('regress-websession-notify-before-recycle', "            self._current_session.recycle()\n            self._current_session.event_dispatcher.notify(\n                self._current_session.SessionEvent.end_session, error=error)\n",
+      "            self._current_session.event_dispatcher.notify(\n                self._current_session.SessionEvent.end_session, error=error)\n            self._current_session.recycle()\n", 'C12-D7', 'wpull/protocol/http/web.py'),
+    B('basesession-notify-before-recycle', "        self.recycle()\n        self.event_dispatcher.notify(self.SessionEvent.end_session, error=error)\n", "        self.event_dispatcher.notify(self.SessionEvent.end_session, error=error)\n        self.recycle()\n", 'C12-D7', 'wpull/protocol/abstract/client.py'),
+    N('websession-notify-in-finally', "            self._current_session.recycle()\n            self._current_session.event_dispatcher.notify(\n                self._current_session.SessionEvent.end_session, error=error)\n",
+      "            try:\n                self._current_session.event_dispatcher.notify(\n                    self._current_session.SessionEvent.end_session, error=error)\n            finally:\n                self._current_session.recycle()\n", 'wpull/protocol/http/web.py'),
+]
